@@ -237,10 +237,16 @@ class Interp:
                     st.assume(z3.Not(x.none))
             a = a.val if isinstance(a, OptReal) else a
             b = b.val if isinstance(b, OptReal) else b
+        if hasattr(a, "pyvc_binop"):
+            return a.pyvc_binop(op, b, st, self, node, False)
+        if hasattr(b, "pyvc_binop"):
+            return b.pyvc_binop(op, a, st, self, node, True)
         if isinstance(op, ast.Add) and isinstance(a, (list, tuple)) and isinstance(b, type(a)):
             return a + b
         if isinstance(op, ast.Mult) and isinstance(a, list) and isinstance(b, int):
             return a * b
+        if isinstance(op, ast.Mult) and isinstance(a, list) and z3.is_expr(b) and b.sort() == INT:
+            return RepList(a, b)  # [x] * n with a symbolic count: only objects that model it can consume it
         if isinstance(op, ast.Add) and isinstance(a, (str, Opaque)) and isinstance(b, (str, Opaque)):
             return Opaque("strcat") if isinstance(a, Opaque) or isinstance(b, Opaque) else a + b
         if isinstance(op, ast.Add) and (
@@ -1107,6 +1113,9 @@ class Interp:
             return
         if name == "int":
             v = a[0]
+            if hasattr(v, "pyvc_int"):
+                yield from v.pyvc_int(st, self, node)
+                return
             if isinstance(v, (int, float)):
                 yield st, int(v)
             elif z3.is_expr(v) and v.sort() == INT:
@@ -1120,6 +1129,9 @@ class Interp:
                 raise Unsupported(f"int() of {v!r}")
             return
         if name == "float":
+            if hasattr(a[0], "pyvc_float"):
+                yield from a[0].pyvc_float(st, self, node)
+                return
             yield st, to_real(a[0])
             return
         if name == "abs":
@@ -1153,6 +1165,10 @@ class Interp:
                 return
             raise Unsupported("getattr")
         if name == "iter":
+            if len(a) == 2 and isinstance(a[0], BoundMethod) and hasattr(a[0].recv, "pyvc_iter_sentinel"):
+                # iter(callable, sentinel): the receiver says what the successive calls return
+                yield st, a[0].recv.pyvc_iter_sentinel(a[0].name, a[1], st, self)
+                return
             yield st, IterObj(self.concrete_items(a[0], st))
             return
         if name == "next":
@@ -1362,6 +1378,21 @@ class Interp:
             if len(objs) != 1 or objs[0][0] is not st:
                 raise Unsupported("forking subscript-assignment target")
             obj = objs[0][1]
+            if isinstance(tgt.slice, ast.Tuple) and any(isinstance(e, ast.Slice) for e in tgt.slice.elts) and hasattr(obj, "pyvc_setitem"):
+                # numpy-style a[i, :] = row: full-axis slices are passed as the marker ":", the other indices evaluated
+                parts = []
+                for e in tgt.slice.elts:
+                    if isinstance(e, ast.Slice):
+                        if e.lower is not None or e.upper is not None or e.step is not None:
+                            raise Unsupported("partial slice in a multi-axis store")
+                        parts.append(":")
+                    else:
+                        ev = list(self.ev(e, st))
+                        if len(ev) != 1:
+                            raise Unsupported("forking subscript index")
+                        parts.append(ev[0][1])
+                obj.pyvc_setitem(tuple(parts), v, st, self, tgt)
+                return
             idxs = list(self.ev(tgt.slice, st))
             if len(idxs) != 1:
                 raise Unsupported("forking subscript index")
@@ -1502,6 +1533,8 @@ class Interp:
                 spec = c.loops.get(k)
                 if spec is None and isinstance(n, ast.For) and isinstance(n.target, ast.Name):
                     spec = c.loops.get("for:" + n.target.id)  # keyed by the loop variable (robust to loops added elsewhere)
+                if spec is None and isinstance(n, ast.For) and isinstance(n.target, ast.Tuple) and all(isinstance(e, ast.Name) for e in n.target.elts):
+                    spec = c.loops.get("for:" + ",".join(e.id for e in n.target.elts))
                 if spec is None:
                     raise Unsupported(f"{c.key}#loop{k} (line {node.lineno}) has no invariant in the sidecar")
                 return k, spec
@@ -1611,7 +1644,8 @@ class Interp:
             hv.alloc = na
         it = fresh("it", INT)
         for gk in gkeys:
-            hv.ghost[gk] = fresh("ghost." + gk, hv.ghost[gk].sort())
+            gv = hv.ghost[gk]
+            hv.ghost[gk] = tuple(fresh(f"ghost.{gk}.{j}", x.sort()) for j, x in enumerate(gv)) if isinstance(gv, tuple) else fresh("ghost." + gk, gv.sort())
         exit_st = hv.fork()
         hv.assume(it >= 0)
         elem, n = self._elem_at(itv, it, hv, node)
@@ -1822,6 +1856,13 @@ class GenVal:
 class IterObj:
     def __init__(self, items):
         self.items = items
+
+
+class RepList:
+    """`items * count` with a symbolic count."""
+
+    def __init__(self, items, count):
+        self.items, self.count = items, count
 
 
 class ZipIt:
